@@ -76,7 +76,7 @@ def setup(ctx):
   _S['cons'] = probes.build({'shape': 'fn', 'api': 'configurable', 'name': 'c5cons', 'module': 'c5', 'pos': [], 'dflt': [['p', None], ['q', None]],
                              'varargs': False, 'kwonly': [], 'varkw': False})
   # config files live in memory when possible: creating several thousand small files on disk dominated the run time
-  shm = '/dev/shm'
+  shm = os.environ.get('VF_SHM_DIR') or '/dev/shm'
   _S['tmp'] = tempfile.mkdtemp(prefix='vf-c5-', dir=shm if os.path.isdir(shm) and os.access(shm, os.W_OK) else None)
   _S['fileno'] = itertools.count()
 
